@@ -106,8 +106,17 @@ class Repo:
             for d_ in dup:
                 sigs.pop(d_, None)
             keep = {kc for mod_ in self._ref.values() if isinstance(mod_, dict) for kc in mod_.get("<kwcalls>", [])}
-            for m_ in self.modules.values():
-                _c.positional_calls(m_.tree, sigs, keep)
+            qsigs = {f"{d_}.{n_.name}": [a.arg for a in n_.args.args] for d_, m_ in self.modules.items() for n_ in m_.tree.body if isinstance(n_, ast.FunctionDef)}
+            for d_, m_ in self.modules.items():
+                local = dict(sigs)
+                # names the module binds itself (own functions, `from .x import f [as g]`) resolve exactly, also when two modules define an `f`
+                for loc_, q_ in _c.import_table(d_, m_.tree, bool(getattr(m_.tree, "_verif_is_pkg", False))).items():
+                    if q_ in qsigs:
+                        local[loc_] = qsigs[q_]
+                for n_ in m_.tree.body:
+                    if isinstance(n_, ast.FunctionDef):
+                        local[n_.name] = [a.arg for a in n_.args.args]
+                _c.positional_calls(m_.tree, local, keep)
 
     def mod(self, dotted: str) -> Module:
         if dotted not in self.modules:
